@@ -164,8 +164,7 @@ def cmd_fullsuite(name):
         if ap.returncode:
             print('PATCH DOES NOT APPLY')
             return 2
-        env = dict(os.environ, HOME=os.path.join(wt, '.home'))
-        os.makedirs(env['HOME'], exist_ok=True)
+        env = dict(os.environ)      # same environment as the baseline run
         xml = f'/tmp/vfseed/{name}.junit.xml'
         t0 = time.time()
         sh(f'cd {wt} && PYTHONPATH={wt} {PY} -m pytest -ra -q -p no:cacheprovider '
